@@ -1681,21 +1681,21 @@ theorem lam_first_eval (xs : VL) (hl : hasLazyL xs = false) :
 lambda at all; the exception comes when a consumer reaches the failing element, after the prefix before it.  Eager
 operators (`indexWhere`, `any`, `all`, `toDict`, `groupBy`, `aggregate`...) apply the lambda while they are called. -/
 
-theorem run_select_lazy (f : Lam) (s : LSeq) :
-    runOp (.select f) (.lazy s) = .ok (.lazy (LSeq.mapM f.eval s.items s.err)) := by
-  simp [runOp, runOp1, Op.linear, Obj.it, Obj.iterable?, bind, Except.bind, pure, Except.pure]
+theorem run_select_lazy (opts : Opts) (hd : opts.iterableDicts = false) (hn : opts.noSets = false) (f : Lam) (hm : f.seqMethods = false) (s : LSeq) :
+    runOp opts (.select f) (.lazy s) = .ok (.lazy (LSeq.mapM f.eval (limitLazy opts s).items (limitLazy opts s).err)) := by
+  simp [runOp, runOpCore, noSetsErr, Op.needsSets, Op.lamUsesLen, runOp1, Op.linear, Op.collArgs, Op.usesPlus, Op.lamSeqMethods, hm, Obj.it, Obj.iterable?, hd, hn, bind, Except.bind, pure, Except.pure]
 
-theorem run_where_lazy (p : Lam) (s : LSeq) :
-    runOp (.where_ p) (.lazy s) = .ok (.lazy (LSeq.filterM p.test s.items s.err)) := by
-  simp [runOp, runOp1, Op.linear, Obj.it, Obj.iterable?, bind, Except.bind, pure, Except.pure]
+theorem run_where_lazy (opts : Opts) (hd : opts.iterableDicts = false) (hn : opts.noSets = false) (p : Lam) (hm : p.seqMethods = false) (s : LSeq) :
+    runOp opts (.where_ p) (.lazy s) = .ok (.lazy (LSeq.filterM p.test (limitLazy opts s).items (limitLazy opts s).err)) := by
+  simp [runOp, runOpCore, noSetsErr, Op.needsSets, Op.lamUsesLen, runOp1, Op.linear, Op.collArgs, Op.usesPlus, Op.lamSeqMethods, hm, Obj.it, Obj.iterable?, hd, hn, bind, Except.bind, pure, Except.pure]
 
-theorem run_takeWhile_lazy (p : Lam) (s : LSeq) :
-    runOp (.takeWhile p) (.lazy s) = .ok (.lazy (LSeq.takeWhileM p.test s.items s.err)) := by
-  simp [runOp, runOp1, Op.linear, Obj.it, Obj.iterable?, bind, Except.bind, pure, Except.pure]
+theorem run_takeWhile_lazy (opts : Opts) (hd : opts.iterableDicts = false) (hn : opts.noSets = false) (p : Lam) (hm : p.seqMethods = false) (s : LSeq) :
+    runOp opts (.takeWhile p) (.lazy s) = .ok (.lazy (LSeq.takeWhileM p.test (limitLazy opts s).items (limitLazy opts s).err)) := by
+  simp [runOp, runOpCore, noSetsErr, Op.needsSets, Op.lamUsesLen, runOp1, Op.linear, Op.collArgs, Op.usesPlus, Op.lamSeqMethods, hm, Obj.it, Obj.iterable?, hd, hn, bind, Except.bind, pure, Except.pure]
 
-theorem run_skipWhile_lazy (p : Lam) (s : LSeq) :
-    runOp (.skipWhile p) (.lazy s) = .ok (.lazy (LSeq.dropWhileM p.test s.items s.err)) := by
-  simp [runOp, runOp1, Op.linear, Obj.it, Obj.iterable?, bind, Except.bind, pure, Except.pure]
+theorem run_skipWhile_lazy (opts : Opts) (hd : opts.iterableDicts = false) (hn : opts.noSets = false) (p : Lam) (hm : p.seqMethods = false) (s : LSeq) :
+    runOp opts (.skipWhile p) (.lazy s) = .ok (.lazy (LSeq.dropWhileM p.test (limitLazy opts s).items (limitLazy opts s).err)) := by
+  simp [runOp, runOpCore, noSetsErr, Op.needsSets, Op.lamUsesLen, runOp1, Op.linear, Op.collArgs, Op.usesPlus, Op.lamSeqMethods, hm, Obj.it, Obj.iterable?, hd, hn, bind, Except.bind, pure, Except.pure]
 
 /-- a consumer that stops before the failing element never sees the exception: `select(f).take(k)` is the
     first `k` results when the first failing application is at a position `>= k` -/
@@ -1726,11 +1726,12 @@ theorem findM_error_position (p : Value → R Bool) (i : Nat) (pre post : VL) (x
     simp only [List.cons_append, LSeq.findM, hy, bind, Except.bind]
     simpa using ih (i + 1) (fun z hz => hpre z (List.mem_cons_of_mem _ hz))
 
-theorem run_indexWhere_eager (p : Lam) (pre post : VL) (x : Value) (er : Err)
+theorem run_indexWhere_eager (opts : Opts) (hd : opts.iterableDicts = false) (hn : opts.noSets = false) (hl : opts.limit = none)
+    (p : Lam) (pre post : VL) (x : Value) (er : Err)
     (hpre : ∀ y ∈ pre, p.test y = .ok false) (hx : p.test x = .error er) :
-    runOp (.indexWhere p) (.lazy ⟨pre ++ x :: post, none⟩) = .error er := by
+    runOp opts (.indexWhere p) (.lazy ⟨pre ++ x :: post, none⟩) = .error er := by
   have := findM_error_position p.test 0 pre post x er none hpre hx
-  simp [runOp, runOp1, Op.linear, Obj.it, Obj.iterable?, bind, Except.bind, this]
+  cases er <;> simp [runOp, runOpCore, noSetsErr, Op.needsSets, Op.lamUsesLen, runOp1, Op.linear, Op.collArgs, Op.usesPlus, Obj.it, Obj.iterable?, limitLazy, hd, hn, hl, bind, Except.bind, this]
 
 /-- non-vacuity of the hypotheses of `select_map` / `take_before_error` / `take_past_error`: `$.first()` over
     `[[1], [], [3]]` succeeds on the prefix `[[1]]` and raises StopIteration on `[]` -/
@@ -1743,80 +1744,81 @@ example : (LSeq.mapM (Lam.first .arg none).eval ([tuple [int 1]] ++ tuple [] :: 
   take_before_error _ (fun _ => int 1) [tuple [int 1]] [tuple [int 3]] (tuple []) .stopIteration none
     (by intro y hy; simp at hy; subst hy; rfl) rfl 1 (by simp)
 /-- non-vacuity of `run_indexWhere_eager`: `[[1], [], [3]].indexWhere($.first() > 2)` raises while it is called -/
-example : runOp (.indexWhere (.gt (.first .arg none) 2)) (.lazy ⟨[tuple [int 1]] ++ tuple [] :: [tuple [int 3]], none⟩)
+example : runOp {} (.indexWhere (.gt (.first .arg none) 2)) (.lazy ⟨[tuple [int 1]] ++ tuple [] :: [tuple [int 3]], none⟩)
     = .error .stopIteration :=
-  run_indexWhere_eager _ [tuple [int 1]] [tuple [int 3]] (tuple []) .stopIteration
+  run_indexWhere_eager {} rfl rfl rfl _ [tuple [int 1]] [tuple [int 3]] (tuple []) .stopIteration
     (by intro y hy; simp at hy; subst hy; rfl) rfl
 
 /-! the demonstrations of the two lambda-boundary defects, on the model -/
 
 /-- `[[1, 2], [1, 2]].select($.where($ > 1))` is `[[2], [2]]`: the second, equal element gets its own result -/
-example : runPipe [.select (.whereIn .arg (.gt .arg 1))] (tuple [tuple [int 1, int 2], tuple [int 1, int 2]])
-    = .ok (list [iter [int 2], iter [int 2]]) := by rfl
+example : runPipe {} [.select (.whereIn .arg (.gt .arg 1))] (tuple [tuple [int 1, int 2], tuple [int 1, int 2]])
+    = .ok (list [list [int 2], list [int 2]]) := by rfl
 
 /-- `[[1], [], [3]].select($.first())` raises StopIteration (when the result is consumed)... -/
-example : runPipe [.select (.first .arg none)] (tuple [tuple [int 1], tuple [], tuple [int 3]])
+example : runPipe {} [.select (.first .arg none)] (tuple [tuple [int 1], tuple [], tuple [int 3]])
     = .error .stopIteration := by rfl
 /-- ...after the first element has been produced: `.take(1)` gives `[1]` -/
-example : runPipe [.select (.first .arg none), .take 1] (tuple [tuple [int 1], tuple [], tuple [int 3]])
+example : runPipe {} [.select (.first .arg none), .take 1] (tuple [tuple [int 1], tuple [], tuple [int 3]])
     = .ok (list [int 1]) := by rfl
 /-- `[[1], [true]].select(str($[0]))` is `['1', 'true']`: equal as keys, different as values -/
-example : runPipe [.select (.strOf (.index .arg 0))] (tuple [tuple [int 1], tuple [bool true]])
+example : runPipe {} [.select (.strOf (.index .arg 0))] (tuple [tuple [int 1], tuple [bool true]])
     = .ok (list [str ['1'], str ['t', 'r', 'u', 'e']]) := by rfl
 /-- `[[1], [1.0]].select($[0] / 2)` is `[0, 0.5]` -/
-example : runPipe [.select (.half (.index .arg 0))] (tuple [tuple [int 1], tuple [flt 0x3FF0000000000000]])
+example : runPipe {} [.select (.half (.index .arg 0))] (tuple [tuple [int 1], tuple [flt 0x3FF0000000000000]])
     = .ok (list [int 0, flt 0x3FE0000000000000]) := by rfl
 /-- `1`, `1.0` and `true` are one key: `[1, 1.0, true].distinct()` is `[1]` -/
-example : runPipe [.distinct none] (tuple [int 1, flt 0x3FF0000000000000, bool true]) = .ok (list [int 1]) := by
+example : runPipe {} [.distinct none] (tuple [int 1, flt 0x3FF0000000000000, bool true]) = .ok (list [int 1]) := by
   rfl
 
 /-! op-level corollaries: what `runOp` computes on an exception-free lazy receiver -/
 
-theorem run_where (p : Lam) (xs : VL) (h : ∀ x ∈ xs, ∃ v, p.eval x = .ok v) :
-    runOp (.where_ p) (.lazy ⟨xs, none⟩) = .ok (.lazy ⟨where_ p.pred xs, none⟩) := by
+theorem run_where (opts : Opts) (hd : opts.iterableDicts = false) (hn : opts.noSets = false) (hl : opts.limit = none) (p : Lam) (xs : VL) (h : ∀ x ∈ xs, ∃ v, p.eval x = .ok v) :
+    runOp opts (.where_ p) (.lazy ⟨xs, none⟩) = .ok (.lazy ⟨where_ p.pred xs, none⟩) := by
   have : LSeq.filterM p.test xs none = ⟨where_ p.pred xs, none⟩ := by
     apply filterM_pure
     intro x hx
     obtain ⟨v, hv⟩ := h x hx
     simp [Lam.test, Lam.pred, Lam.fn, hv, bind, Except.bind, pure, Except.pure]
-  simp [runOp, runOp1, Op.linear, Obj.it, Obj.iterable?, bind, Except.bind, pure, Except.pure, this]
+  simp [runOp, runOpCore, noSetsErr, Op.needsSets, Op.lamUsesLen, runOp1, Op.linear, Op.collArgs, Op.usesPlus, Obj.it, Obj.iterable?, limitLazy, hd, hn, hl, bind, Except.bind, pure, Except.pure, this]
 
-theorem run_select (f : Lam) (xs : VL) (h : ∀ x ∈ xs, ∃ v, f.eval x = .ok v) :
-    runOp (.select f) (.lazy ⟨xs, none⟩) = .ok (.lazy ⟨select f.fn xs, none⟩) := by
+theorem run_select (opts : Opts) (hd : opts.iterableDicts = false) (hn : opts.noSets = false) (hl : opts.limit = none) (f : Lam) (xs : VL) (h : ∀ x ∈ xs, ∃ v, f.eval x = .ok v) :
+    runOp opts (.select f) (.lazy ⟨xs, none⟩) = .ok (.lazy ⟨select f.fn xs, none⟩) := by
   have : LSeq.mapM f.eval xs none = ⟨select f.fn xs, none⟩ := by
     apply mapM_pure
     intro x hx
     obtain ⟨v, hv⟩ := h x hx
     simp [Lam.fn, hv]
-  simp [runOp, runOp1, Op.linear, Obj.it, Obj.iterable?, bind, Except.bind, pure, Except.pure, this]
+  simp [runOp, runOpCore, noSetsErr, Op.needsSets, Op.lamUsesLen, runOp1, Op.linear, Op.collArgs, Op.usesPlus, Obj.it, Obj.iterable?, limitLazy, hd, hn, hl, bind, Except.bind, pure, Except.pure, this]
 
-theorem run_take (n : Nat) (xs : VL) :
-    runOp (.take n) (.lazy ⟨xs, none⟩) = .ok (.lazy ⟨take n xs, none⟩) := by
+theorem run_take (opts : Opts) (hd : opts.iterableDicts = false) (hn : opts.noSets = false) (hl : opts.limit = none) (n : Nat) (xs : VL) :
+    runOp opts (.take n) (.lazy ⟨xs, none⟩) = .ok (.lazy ⟨take n xs, none⟩) := by
   have : ¬ ((n : Int) < 0) := by omega
-  simp [runOp, runOp1, Op.linear, Obj.it, Obj.iterable?, bind, Except.bind, pure, Except.pure, LSeq.take, take, this]
+  simp [runOp, runOpCore, noSetsErr, Op.needsSets, Op.lamUsesLen, runOp1, Op.linear, Op.collArgs, Op.usesPlus, Obj.it, Obj.iterable?, limitLazy, hd, hn, hl, bind, Except.bind, pure, Except.pure, LSeq.take, take, this]
 
-theorem run_skip (n : Nat) (xs : VL) :
-    runOp (.skip n) (.lazy ⟨xs, none⟩) = .ok (.lazy ⟨skip n xs, none⟩) := by
+theorem run_skip (opts : Opts) (hd : opts.iterableDicts = false) (hn : opts.noSets = false) (hl : opts.limit = none) (n : Nat) (xs : VL) :
+    runOp opts (.skip n) (.lazy ⟨xs, none⟩) = .ok (.lazy ⟨skip n xs, none⟩) := by
   have : ¬ ((n : Int) < 0) := by omega
-  simp [runOp, runOp1, Op.linear, Obj.it, Obj.iterable?, bind, Except.bind, pure, Except.pure, LSeq.drop, skip, this]
+  simp [runOp, runOpCore, noSetsErr, Op.needsSets, Op.lamUsesLen, runOp1, Op.linear, Op.collArgs, Op.usesPlus, Obj.it, Obj.iterable?, limitLazy, hd, hn, hl, bind, Except.bind, pure, Except.pure, LSeq.drop, skip, this]
 
-theorem run_reverse (xs : VL) :
-    runOp .reverse (.lazy ⟨xs, none⟩) = .ok (.lazy ⟨reverse xs, none⟩) := by
-  simp [runOp, runOp1, Op.linear, Obj.it, Obj.iterable?, bind, Except.bind, pure, Except.pure, LSeq.toList, lazyOk, reverse]
+theorem run_reverse (opts : Opts) (hd : opts.iterableDicts = false) (hn : opts.noSets = false) (hl : opts.limit = none) (xs : VL) :
+    runOp opts .reverse (.lazy ⟨xs, none⟩) = .ok (.lazy ⟨reverse xs, none⟩) := by
+  simp [runOp, runOpCore, noSetsErr, Op.needsSets, Op.lamUsesLen, runOp1, Op.linear, Op.collArgs, Op.usesPlus, Obj.it, Obj.iterable?, limitLazy, hd, hn, hl, bind, Except.bind, pure, Except.pure, LSeq.toList, lazyOk, reverse]
 
-theorem run_distinct (xs : VL) (h : ∀ x ∈ xs, hashable x = true) :
-    runOp (.distinct none) (.lazy ⟨xs, none⟩) = .ok (.lazy ⟨distinct xs, none⟩) := by
+theorem run_distinct (opts : Opts) (hd : opts.iterableDicts = false) (hn : opts.noSets = false) (hl : opts.limit = none) (xs : VL) (h : ∀ x ∈ xs, hashable x = true) :
+    runOp opts (.distinct none) (.lazy ⟨xs, none⟩) = .ok (.lazy ⟨distinct xs, none⟩) := by
   have : distinctM (optLam none).eval [] xs none = ⟨distinctAux id [] xs, none⟩ :=
     distinctM_pure _ id [] xs none
       (by intro x _; simp [optLam, Lam.eval, Lam.passThrough, Lam.evalR, LRes.force, bind, Except.bind]) (by simpa using h)
-  have hl : (Obj.lazy ⟨xs, none⟩).carriesLazy = false := by simpa [Obj.carriesLazy] using noLazyL_of_all_hashable xs h
-  simp [runOp, runOp1, hl, Obj.it, Obj.iterable?, bind, Except.bind, pure, Except.pure, this, distinct, distinctBy]
+  have hl' : (Obj.lazy ⟨xs, none⟩).carriesLazy = false := by simpa [Obj.carriesLazy] using noLazyL_of_all_hashable xs h
+  simp [runOp, runOpCore, noSetsErr, Op.needsSets, Op.lamUsesLen, runOp1, hl', Op.collArgs, Op.usesPlus, Obj.it, Obj.iterable?, limitLazy, hd, hn, hl, bind, Except.bind, pure, Except.pure, this, distinct, distinctBy]
 
 /-- iterating the result of `orderBy` yields the pure stable sort -/
-theorem run_orderBy_iter (k : Lam) (xs : VL) (h : sortErrs [(k, true)] [xs] = []) :
-    (runOp (.orderBy k) (.lazy ⟨xs, none⟩) >>= fun o => o.it)
+theorem run_orderBy_iter (opts : Opts) (hd : opts.iterableDicts = false) (hn : opts.noSets = false) (hl : opts.limit = none)
+    (k : Lam) (xs : VL) (h : sortErrs [(k, true)] [xs] = []) :
+    (runOp opts (.orderBy k) (.lazy ⟨xs, none⟩) >>= fun o => o.it opts)
       = .ok ⟨orderBy ltT gtT k.fn xs, none⟩ := by
   have hs := sortRun_pure [(k, true)] xs h
-  simp [runOp, runOp1, Op.linear, Obj.it, Obj.iterable?, bind, Except.bind, pure, Except.pure, hs, orderBy, fieldsFn]
+  simp [runOp, runOpCore, noSetsErr, Op.needsSets, Op.lamUsesLen, runOp1, Op.linear, Op.collArgs, Op.usesPlus, Obj.it, Obj.iterable?, limitLazy, hd, hn, hl, bind, Except.bind, pure, Except.pure, hs, orderBy, fieldsFn]
 
 end Yaql.Props.C13
